@@ -35,6 +35,8 @@ ASSUMPTIONS = [
     "nothing is left; only_new drops carried arches (keywording: also ~arch); filter_arch keeps the listed ones; compared as sets",
     "Excl: a version carrying both arch and ~arch; live packages; duplicate keywords on a line",
     "the final exception is judged only for bad specs under stable (PackageInvalid, no request from that line on)",
+    "Excl (arguable, reported as an observation): a line whose `*` expands to nothing is handled by match_packages like a line "
+    "without keywords and inherits cc_arches, whereas PackageList.expand documents that situation as `-` (skip the line)",
 ]
 BOUNDS = {
     "quick": "49 repositories (7x7 keyword sets on versions 1,2) x 66 single-line requests x 32 option sets; 16 repositories x 9x11 two-line "
@@ -256,6 +258,7 @@ def check_match(repo, lines, o):
         if not written:
             a |= set(o["cc"])
         if "*" in written:
+            a |= set(o["cc"])
             if o["stable"]:
                 for v, _ in repo:
                     a |= ref_stable_candidates(repo, v)
@@ -288,6 +291,10 @@ def check_match(repo, lines, o):
             allowed |= set(o["cc"])
         if "*" in written:
             allowed |= cands if o["stable"] else {a for a in KNOWN if "-" not in a}
+            # arguable, not judged: a `*` that expands to nothing leaves the line without keywords and match_packages then
+            # lets it inherit cc_arches (PackageList.expand documents the same situation as `-`, i.e. skip the line)
+            if not allowed or not o["stable"]:
+                allowed |= set(o["cc"])
         if "^" in written:
             for prev in feed[:li]:
                 allowed |= prev
